@@ -271,6 +271,16 @@ def rule_b8(ctx):
     f = ctx.repo.func(LANG, "parse_bnf", "C11.B8")
     c = f"{LANG}:parse_bnf"
     lx = [x for x in calls_in(f) if call_name(x) == "bnfLexer"]
+    if not lx:
+        # a wrapper around the function that does the work (a memoised inner parser): follow the single call that receives the text unchanged
+        m = ctx.repo.module(LANG, "C11.B8")
+        p_outer = f.args.args[0].arg
+        inner = [x for x in calls_in(f) if isinstance(x.func, ast.Name) and isinstance(m.get(x.func.id), ast.FunctionDef) and len(x.args) == 1 and isinstance(x.args[0], ast.Name) and x.args[0].id == p_outer]
+        rebound = [x for x in walk_local(f) if isinstance(x, (ast.Assign, ast.AugAssign)) and src(x.targets[0] if isinstance(x, ast.Assign) else x.target) == p_outer]
+        if len(inner) == 1 and not rebound:
+            f = m.get(inner[0].func.id)
+            c = f"{LANG}:{f.name}"
+            lx = [x for x in calls_in(f) if call_name(x) == "bnfLexer"]
     if len(lx) != 1:
         raise Unrecognised("C11.B8", c, "bnfLexer(...) call not found")
     a = " ".join(src(lx[0].args[0]).split())
